@@ -370,16 +370,27 @@ func (e *env) close() {
 	}
 }
 
-func build(brokers int, itopics [][3]int, withEtcd bool) (*env, error) {
+// topicSpec: one topic of the initial snapshot.  v < 0: CreateTopic-like lists ([0]); v >= 0: non-ascending,
+// rotated, duplicate-carrying Replicas/ISR/OfflineReplicas (rtopic).  order >= 0 (ptopic): the Partitions
+// ARRAY itself is stored out of order — entry i carries partition id partOrderTable[order][i] (non-ascending,
+// some rows with duplicate ids or gaps), as a snapshot listing partitions 2,0,1 would be loaded.
+type topicSpec struct{ id, parts, v, order int }
+
+var partOrderTable = [][]int32{{2, 0, 1}, {1, 0}, {2, 1, 0}, {1, 1, 0}, {0, 2, 1, 1}, {3, 0, 2, 1}, {4, 2}}
+
+func build(brokers int, itopics []topicSpec, withEtcd bool) (*env, error) {
 	cm := metadata.ClusterMetadata{ControllerID: 0, ClusterName: kmsg.StringPtr("verif"), ClusterID: kmsg.StringPtr("c40")}
 	for i := 0; i < brokers; i++ {
 		cm.Brokers = append(cm.Brokers, protocol.MetadataBroker{NodeID: int32(i), Host: fmt.Sprintf("b%d", i), Port: 9092})
 	}
 	for _, it := range itopics {
-		t := protocol.MetadataTopic{Topic: kmsg.StringPtr(fmt.Sprintf("t%d", it[0]))}
-		for p := 0; p < it[1]; p++ {
+		t := protocol.MetadataTopic{Topic: kmsg.StringPtr(fmt.Sprintf("t%d", it.id))}
+		for p := 0; p < it.parts; p++ {
 			part := protocol.MetadataPartition{Partition: int32(p), Leader: 0, Replicas: []int32{0}, ISR: []int32{0}}
-			if v := it[2]; v >= 0 {
+			if it.order >= 0 {
+				part.Partition = partOrderTable[it.order%len(partOrderTable)][p] // p is the POSITION in the array
+			}
+			if v := it.v; v >= 0 {
 				// rtopic: non-ascending, rotated, duplicate-carrying lists (same table as Lean's layoutOf)
 				part.Replicas = layoutList((v + p) % 6)
 				part.ISR = layoutList((v + 2*p + 3) % 6)
@@ -537,6 +548,9 @@ func callTool(cs *mcp.ClientSession, tool string, args any) (out string) {
 		var ts []string
 		for _, t := range o.Topics {
 			var ps []string
+			// canonical: partitions by id (stable).  The order in which the tool LISTS partitions is not part
+			// of C40; the order in which the store HOLDS them is, and that is what the snapshots compare.
+			sort.SliceStable(t.Partitions, func(i, j int) bool { return t.Partitions[i].Partition < t.Partitions[j].Partition })
 			for _, p := range t.Partitions {
 				ps = append(ps, fmt.Sprintf("%d=%s|%s|%s", p.Partition, dotted(p.ReplicaNodes), dotted(p.ISRNodes), dotted(p.OfflineReplicas)))
 			}
@@ -662,7 +676,7 @@ func main() {
 	defer w.Flush()
 	var e *env
 	var pendingBrokers = -1
-	var pending [][3]int
+	var pending []topicSpec
 	ensure := func() error {
 		if pendingBrokers >= 0 {
 			if e != nil {
@@ -701,13 +715,21 @@ func main() {
 				if pendingBrokers < 0 {
 					return "bad-op"
 				}
-				pending = append(pending, [3]int{atoi(f[1]), atoi(f[2]), -1})
+				pending = append(pending, topicSpec{atoi(f[1]), atoi(f[2]), -1, -1})
 				return "ok"
 			case f[0] == "rtopic" && len(f) == 4:
 				if pendingBrokers < 0 {
 					return "bad-op"
 				}
-				pending = append(pending, [3]int{atoi(f[1]), atoi(f[2]), atoi(f[3])})
+				pending = append(pending, topicSpec{atoi(f[1]), atoi(f[2]), atoi(f[3]), -1})
+				return "ok"
+			case f[0] == "ptopic" && len(f) == 4:
+				// ptopic <id> <row of partOrderTable> <v>: partitions array stored in non-ascending id order
+				if pendingBrokers < 0 || atoi(f[2]) < 0 || atoi(f[3]) < 0 {
+					return "bad-op"
+				}
+				o := atoi(f[2]) % len(partOrderTable)
+				pending = append(pending, topicSpec{atoi(f[1]), len(partOrderTable[o]), atoi(f[3]), o})
 				return "ok"
 			}
 			if err := ensure(); err != nil {
@@ -744,7 +766,9 @@ func main() {
 					for _, m := range ids(f[4]) {
 						id := "m" + strconv.Itoa(m)
 						g.Members[id] = &metadatapb.GroupMember{ClientId: "c" + strconv.Itoa(m), ClientHost: "h", SessionTimeoutMs: 10000,
-							Subscriptions: []string{"t0"}, Assignments: []*metadatapb.Assignment{{Topic: "t0", Partitions: []int32{int32(m)}}}}
+							// nested lists non-ascending too (subscriptions, assignments, assigned partitions)
+							Subscriptions: []string{"t1", "t0"}, Assignments: []*metadatapb.Assignment{
+								{Topic: "t1", Partitions: []int32{int32(m), 0}}, {Topic: "t0", Partitions: []int32{2, 0, 1}}}}
 						if g.Leader == "" {
 							g.Leader = id
 						}
